@@ -137,13 +137,16 @@ def _mk(tname, targs, mod, cls, extra):
 
     @obligation(f'C16.{tname}{suffix}', 'C16', cases=cs, fuc=[f'{mod}.{cls}.deserialize'],
                 descr=f'{cls}.deserialize on the schema encoding of {tname} {suffix} in {len(cs)} shapes = {how} x nested profile x '
-                      f'var-integer length rotation (fields symbolic over their full range): every field returned with the encoded '
+                      f'var-integer length rotation (fields symbolic over their full range; every third shape after an earlier parse of an '
+                      f'independent value of the same shape - history independence): every field returned with the encoded '
                       f'value, exactly the encoded bits and references consumed',
                 budget={'seconds': 25, 'paths': 400})
     def ob(w, i, shape, _t=tname, _a=targs, _m=mod, _c=cls, _x=extra):
         case = cases_of(_t, _a)[i]
         M = importlib.import_module(_m)
         fn = getattr(M, _c).deserialize
+        if i % 3 == 0:         # every third shape: an earlier parse of an independent value of the same shape comes first
+            TC.decoy_parse(w, fn, _t, _a, case['own'], case['prof'], case['rot'], extra_args=_x(case['own']) if _x else ())
         cur, v = TC.encode(w, _t, _a, case['own'], case['prof'], case['rot'])
         TC.parse_and_compare(w, fn, cur, v, extra_args=_x(case['own']) if _x else ())
     return ob
